@@ -553,7 +553,6 @@ func (d *driver) run() {
 			d.sealRaces(round, sorted)
 			d.parPasses(round, sorted)
 			d.useLock(sorted)
-			d.proxyScripts(round, sorted)
 			d.overlapRegress(sorted)
 			nrep := 2
 			if !quick {
@@ -562,6 +561,12 @@ func (d *driver) run() {
 			for rep := 0; rep < nrep; rep++ {
 				d.gapRegress(sorted, round*nrep+rep)
 			}
+		}
+	}
+	// last, so that the inputs of the classes above do not depend on it
+	for round := 0; round < rounds; round++ {
+		for _, sorted := range []bool{true, false} {
+			d.proxyScripts(round, sorted)
 		}
 	}
 }
@@ -842,8 +847,13 @@ func (d *driver) cacheCases(h *history) {
 	}
 	hdr := map[string]fracObs{}
 	var sealedNames []string
+	// only fractions that are sealed ON DISK in the final state: a rotated, not yet sealed fraction is sealed anew by
+	// every restart (FracManager.Load), its Info never comes from the cache file and the size of the fresh index
+	// differs by a few bytes from restart to restart (false alarm cache:tampered-no-index-field, seed 2, noted in the
+	// report of extension s6)
+	onDisk := fileSets(final.FileNames())
 	for _, f := range results[0].obs.Fracs {
-		if f.Kind == "sealed" {
+		if f.Kind == "sealed" && has(onDisk[f.Name], ".index") {
 			hdr[f.Name] = f
 			sealedNames = append(sealedNames, f.Name)
 		}
